@@ -118,7 +118,8 @@ def run_generic(module_names, qname, obligation, model):
             allowed = tuple(x for x in list(c.raises) + list(c.may_raise) if isinstance(x, type))
             return 0 if isinstance(outcome[1], allowed) and allowed else 1
         clause = c.ensures[m.group(1)]
-        env2 = dict(env, result=outcome[1], old=old)
+        env2 = dict(env, ret=outcome[1], old=old)
+        env2.setdefault('result', outcome[1])
         try:
             ok = _call(clause, env2)
         except Exception as e:
